@@ -107,7 +107,7 @@ PROPS = {
                 aspects=['hist:removals'], monitors=['C01'],
                 theorems=['Esc.P.C01_scan', 'Esc.P.C01_history', 'Esc.P.C01_scan_partial', 'Esc.P.C01_history_partial', 'Esc.P.C01_unreadable', 'Esc.P.C01_untainted',
                           'Esc.P.C01_cordoned', 'Esc.P.inRange_all', 'Esc.P.C01_T1_witness_repaired', 'Esc.P.goAge_wraps_without_guard']),
-    'C02': dict(level='proof', module='EscProofs.P.C02',
+    'C02': dict(level='proof', module='EscProofs.P.Fresh',
                 # the last stream of each tier lets the credentials refresh fail (provider rebuilt inside a cool-down): 5 s of real sleep each
                 streams=dict(quick=[('scenario', ['-dir', '@ROOT/corpus/C02']), ('hist', ['-n', 400, '-scans', 10, '-focus', 'cooldown']),
                                     ('hist', ['-n', 16, '-scans', 5, '-focus', 'cooldown', '-slow'])],
@@ -117,7 +117,7 @@ PROPS = {
                                      ('hist', ['-n', 30, '-scans', 8, '-focus', 'fleet'])]),
                 aspects=['hist:writes', 'hist:state'], monitors=['C02'],
                 theorems=['Esc.P.C02_quiet_scan', 'Esc.P.C02_history_quiet', 'Esc.P.C02_release', 'Esc.P.C02_release_scan', 'Esc.P.C02_armed',
-                          'Esc.P.increaseSize_none', 'Esc.P.runOnce_quiet'],
+                          'Esc.P.increaseSize_none', 'Esc.P.runOnce_quiet', 'Esc.P.C02_increase_is_last'],
                 technique='Lean 4 theorem (lock invariant carried through RunOnce and along histories by induction over the event list, explicit clock) + differential correspondence on all calls and on the lock state + monitor over observed histories',
                 level_text='C02_quiet_scan / C02_history_quiet: while now - lockTime < cool-down a group scan issues no call at all and leaves the lock untouched, for every view (below minimum, force-tainted, expired nodes) and, within one lifetime, '
                            'along every history of scans; C02_armed + increaseSize_none: the lock is armed only on an accepted SetDesiredCapacity/AttachInstances (or in dry mode); C02_release(_scan): once the period has elapsed the lock is not held. '
